@@ -296,6 +296,8 @@ def run(ctx):
     from . import c17
     c17.check_one(_Renumber(ctx, {5: 4}, drop=(1, 2, 3, 4, 6)), "naive", "naive", always_single=False)
     c17.check_one(_Renumber(ctx, {5: 4}, drop=(1, 2, 3, 4, 6)), "tmpl", "template", always_single=True)
+    for key_ in ("naive", "tmpl", "priority", "priority-pool"):
+        sched.ob_assignments_returned(ctx, 4, key_, key_)
     check_flag(ctx, 5)
     c06.check_reductions(ctx, 6)
     c06.check_divisions(ctx, 6)
@@ -306,6 +308,7 @@ def run(ctx):
     check_depletion_assert(ctx, 9)
     check_positivity(ctx, 10)
     check_admission_exact(ctx, 11)
+    check_termination(ctx, 12)
 
 
 class _Renumber:
@@ -608,3 +611,111 @@ def check_admission_exact(ctx, num=11):
             ok = any(norm.entails(fits, norm.neg(x)) for x in g.facts_at(r))
             d = f"raise reachable although the batch fits: {not ok}"
         ctx.ob(num, "K2", "the executor refuses a batch only when it does not fit (a batch that exactly fills the free CPU / RAM is accepted)", ok, f, r, detail=d)
+
+
+# ---------------------------------------------------------------------------------------------------------------------
+# (12) the `while` loops of the shipped schedulers terminate (a scheduler that spins keeps the run from ever ending)
+
+def _loop_paths_all_pass(g, w: ast.While, nodes: List[ast.AST]) -> bool:
+    """every way from the loop header round to the header again passes through one of `nodes`"""
+    hid = g.node_of(w).id
+    ids = set()
+    for n in nodes:
+        try:
+            ids.add(g.node_of(n).id)
+        except KeyError:
+            pass
+    if not ids:
+        return False
+    inside = {g.node_of(st).id for b in w.body for st in ast.walk(b) if isinstance(st, ast.stmt) and id(st) in g.stmt_node}
+
+    def edge_ok(a, b, lab):
+        return b == hid or b in inside
+    # a path header -> (body nodes, avoiding `ids`) -> header
+    for t, lab in g.nodes[hid].succ:
+        if t in inside and t not in ids:
+            if g.path_avoiding(t, {hid}, ids, edge_ok=edge_ok) is not None:
+                return False
+    return True
+
+
+def check_termination(ctx, num=12):
+    P = ctx.P
+    n_w = 0
+    for key in ("naive", "tmpl", "priority", "priority-pool", "overbook"):
+        f0 = sched.scheduler(P, key)
+        for fn_ in sched.module_helpers(P, f0):
+            g = cfg_of(fn_, subst_env=False)
+            for w in [n for n in own_nodes(fn_.node) if isinstance(n, ast.While)]:
+                n_w += 1
+                ok, why = _terminates(P, fn_, g, w)
+                ctx.ob(num, "K10", f"[{key}] every `while` loop of the scheduler has a termination argument (each iteration consumes from a finite source, "
+                       "or the scan over the pools' iterators is rotated and left when all are exhausted)", ok, fn_, w, construct=f"while {norm.U(w.test)}", detail=why)
+    ctx.count_min("while loops in the shipped schedulers", n_w, 2)
+
+
+def _terminates(P, fn_, g, w: ast.While) -> Tuple[bool, str]:
+    body_nodes = [x for b in w.body for x in ast.walk(b)]
+    # (a) consumption of the tested list:  while L: ... L.pop(..) on every iteration, nothing is added to L inside
+    t = norm.nnf(w.test)
+    if t[0] == "truth" and t[2] is True:
+        L = t[1]
+        pops = [c for c in body_nodes if isinstance(c, ast.Call) and isinstance(c.func, ast.Attribute) and c.func.attr in ("pop", "popleft") and norm.U(c.func.value) == L]
+        adds = [c for c in body_nodes if isinstance(c, ast.Call) and isinstance(c.func, ast.Attribute) and c.func.attr in ("append", "extend", "insert", "appendleft")
+                and norm.U(c.func.value) == L]
+        if pops and not adds and _loop_paths_all_pass(g, w, pops):
+            return True, f"every iteration removes an element of `{L}` and none is added inside the loop"
+        if pops:
+            return False, f"`{L}` is popped, but not on every iteration or elements are added inside the loop ({[norm.U(a) for a in adds]})"
+    # (b) every iteration draws from an iterator with next(): a finite iterator ends the loop by StopIteration
+    nexts = [c for c in body_nodes if isinstance(c, ast.Call) and norm.is_name(c.func, "next") and len(c.args) == 1]
+    handlers = [h for x in body_nodes if isinstance(x, ast.Try) for h in x.handlers]
+    catches_stop = any(h.type is None or "StopIteration" in norm.U(h.type) or norm.U(h.type) in ("Exception", "BaseException") for h in handlers)
+    if nexts and not catches_stop and _loop_paths_all_pass(g, w, nexts):
+        return True, f"every iteration draws with {norm.U(nexts[0])}; the iterator is finite, StopIteration leaves the loop"
+    # (c) rotated scan over a list of iterators with exhaustion flags
+    if nexts and catches_stop:
+        its = {norm.U(c.args[0]) for c in nexts}
+        idx = None
+        for c in nexts:
+            a = c.args[0]
+            if isinstance(a, ast.Subscript) and isinstance(a.slice, ast.Name):
+                idx = a.slice.id
+        flags = None
+        flag_sets = []
+        for h in handlers:
+            for st in h.body:
+                if isinstance(st, ast.Assign) and len(st.targets) == 1 and isinstance(st.targets[0], ast.Subscript) and isinstance(st.targets[0].value, ast.Name) \
+                        and norm.is_name(st.targets[0].slice, idx or "?") and isinstance(st.value, ast.Constant) and st.value.value is True:
+                    flags = st.targets[0].value.id
+                    flag_sets.append(st)
+        if idx is None or flags is None:
+            return False, "next() on iterators inside try/except StopIteration, but no per-iterator exhaustion flag is set in the handler"
+        # left when all are exhausted: the test `all(flags)` ends the loop, checked in every iteration before the draw
+        allt = ("truth", f"all({flags})", False)
+        guarded = all(norm.entails(g.facts_at(c), allt) for c in nexts if _outer_while(c, fn_) is w) or allt in norm.atoms_true(norm.nnf(w.test))
+        # the index rotates through all iterators on every iteration
+        rots = [n for n in body_nodes if isinstance(n, ast.Assign) and len(n.targets) == 1 and norm.is_name(n.targets[0], idx) and isinstance(n.value, ast.BinOp)
+                and isinstance(n.value.op, ast.Mod) and isinstance(n.value.left, ast.BinOp) and isinstance(n.value.left.op, ast.Add)
+                and norm.U(n.value.left) in (f"{idx} + 1", f"1 + {idx}")]
+        rotated = bool(rots) and _loop_paths_all_pass(g, w, rots)
+        env = single_defs(fn_)
+        modulus = norm.U(norm.subst(rots[0].value.right, env)) if rots else None
+        # the flags and the iterators are per pool, and the modulus is the number of pools
+        sized = modulus is not None and (modulus.endswith(".executor.num_pools") or modulus in (f"len({flags})",) or any(modulus == f"len({i.split('[')[0]})" for i in its))
+        # every iteration draws (or is flagged): the try with the draw is on every path of the iteration
+        draws = _loop_paths_all_pass(g, w, [c for c in nexts if _outer_while(c, fn_) is w])
+        ok = guarded and rotated and sized and draws
+        return ok, (f"scan over {sorted(its)} by index `{idx}`: left when all({flags}) [{guarded}]; the handler of StopIteration flags the current iterator; "
+                    f"the index advances by one modulo {modulus} on every iteration [{rotated}, all pools: {sized}]; every iteration draws or flags [{draws}]")
+    return False, "no termination argument recognised for this loop"
+
+
+def _outer_while(n, fn_):
+    p_ = parent(n)
+    last = None
+    while p_ is not None and p_ is not fn_.node:
+        if isinstance(p_, ast.While):
+            return p_
+        p_ = parent(p_)
+    return last
